@@ -993,14 +993,15 @@ def all_op_names():
 
 # ----------------------------------------------------------------------------
 class StepResult:
-    __slots__ = ("status", "proc", "exc", "extra", "step")
+    __slots__ = ("status", "proc", "exc", "extra", "step", "calls")
 
-    def __init__(self, status, proc=None, exc=None, extra=None, step=None):
+    def __init__(self, status, proc=None, exc=None, extra=None, step=None, calls=None):
         self.status = status  # "accepted" | "rejected" | "noargs"
         self.proc = proc
         self.exc = exc
         self.extra = extra
         self.step = step
+        self.calls = calls or []  # hooks.CallRecord of every primitive invoked by this step
 
 
 def is_unsafe_step(step):
@@ -1022,26 +1023,31 @@ def apply_step(sess: Session, step, commit=True):
         kw = dict(step.get("kw") or {})
     except Exception as e:  # a dangling locator
         return StepResult("rejected", exc=e, step=step)
+    from . import hooks
+
+    rec = hooks.install_call_recorder()
+    rec.clear()
     try:
         res = fn(sess.cur, *args, **kw)
     except BaseException as e:
         if isinstance(e, (KeyboardInterrupt, SystemExit, MemoryError, CaseTimeout)):
             raise
-        return StepResult("rejected", exc=e, step=step)
+        return StepResult("rejected", exc=e, step=step, calls=rec.take())
+    calls = rec.take()
     extra = None
     if isinstance(res, tuple):
         # extract_subproc returns (proc, subproc); rc-style returns (proc, cursors)
         extra = res[1:]
         res = res[0]
     if not isinstance(res, Procedure):
-        return StepResult("rejected", exc=TypeError("no procedure returned"), step=step)
+        return StepResult("rejected", exc=TypeError("no procedure returned"), step=step, calls=calls)
     if commit:
         sess.procs.append(res)
         sess.steps.append(step)
         sess.step_of.append(step)
         if step["op"] == "extract_subproc" and extra and isinstance(extra[0], Procedure):
             sess.extra[extra[0].name()] = extra[0]
-    return StepResult("accepted", proc=res, extra=extra, step=step)
+    return StepResult("accepted", proc=res, extra=extra, step=step, calls=calls)
 
 
 def random_step(sess: Session, rng, op_weights=None, tries=6):
